@@ -285,6 +285,7 @@ def _minus_ghost(tag):
     unit = {'second': 'OSEC(a)', 'minute': 'OMIN(a)', 'hour': 'OHOUR(a)', 'day': 'ODAY(a)'}[tag]
     chain = {'second': ['FD60', 'FD60', 'FD24'], 'minute': ['FD60', 'FD24'], 'hour': ['FD24'], 'day': []}[tag]
     g = ["if (n == INT_FAST64_MIN) {",
+         "REVEAL_OSEC(a);",
          "const Z g_u0 = %s;" % unit, "const Z g_u1 = g_u0 + (Z)INT64_MAX;", "const Z g_u2 = g_u0 + (Z)INT64_MAX + 1;",
          "BOUND_DAYORD(a.y, a.m, a.d);",
          use('validrepr', ['a.y', 'a.m', 'a.d']),
